@@ -91,6 +91,13 @@ CHECKS["C04"] = (True, TV, "translation validation per program over an exhaustiv
     "symbolic; z3 decides per joint path that every component of the result equals the reference interpreter's.",
     "Trusts z3, the proxy model (floats as reals), the reference interpreter. uint vectors and non-square matrices outside; matrix*vector and scalar*matrix are recorded known findings.", "DESIGN.md 5 (C04)")
 
+CHECKS["C02"] = (True, TV, "differential translation validation: unoptimised vs optimised build of the same source on the real VM with symbolic arguments and globals (symx + z3); accept/reject compared concretely",
+    "Every member of F2 (a store followed by a load of the same variable in every consumer position - operand, branch predicate, member access, index, call argument, return, cast, constructor, "
+    "swizzle, chained forwarding - for parameters, locals and globals of scalar, vector, matrix, struct and array type; constant casts in every literal position) and of the F1 core set, the F3 templates, "
+    "F4 and seeded random programs is compiled by the real compiler with optimize off and on; both modules run on the real VM on the same symbolic inputs in one exploration and z3 decides per joint "
+    "path that return value, globals and the kind of failure are equal. The evidence counts the programs in which an optimisation actually fired.",
+    "Trusts z3 and the proxy model (floats as reals). The unoptimised build is the reference; no source-level oracle is involved.", "DESIGN.md 5 (C02)")
+
 NOT_YET = "check not built yet in this round (see DESIGN.md status); nothing is claimed"
 NA = {
     "C18": "quantifies over hash seeds, processes and compilation histories: none of these is a value flowing through the code, so there is no assertion over symbolic variables for a solver to decide (DESIGN.md section 6)",
